@@ -9,7 +9,7 @@ import sys
 
 from harness import core
 from harness.core import Atom
-from harness.gen.c30_templates import ADDRESS_TEMPLATES, TGen, const_fold_templates
+from harness.gen.c30_templates import ADDRESS_TEMPLATES, DISTINCT_PART_TEMPLATES, TGen, const_fold_templates
 from translate import set_iter_sites as tr_sites
 
 ID = "C30"
@@ -52,7 +52,7 @@ CLAIM = dict(
          "programs on the real CodeGenerator vs the model; every generated template (tuple unpacking, branch stores, loops, "
          "imports, macros with caller/varargs/kwargs, filters/tests, namespaces, blocks, call blocks, trans blocks) and every "
          "registered filter and test applied to 12 constant operands with its argument combinations (folded at compile time) compiled "
-         "raw under 4/16 hash seeds in subprocesses and twice in one process, in six environment configurations.",
+         "raw under 8/16 hash seeds in subprocesses and twice in one process, in six environment configurations.",
     note="Trusted: Lean kernel; translator's set typing (intra-procedural); hand model tied by correspondence; the "
          "expression/statement visitors of the generator are covered by the inventory and the experiment, not by the model. "
          "Two defects found by this check are fixed in /repo (73a6db1 trans variable order, df6ea54 folded object text); their "
@@ -427,6 +427,11 @@ def gen_items(ctx, n):
                   "src": "{% if a %}{% set alpha, beta, gamma = 1, 2, 3 %}{% elif b %}{% set delta = 1 %}{% set eps = 2 %}"
                          "{% else %}{% set zeta, eta = 1, 2 %}{% endif %}{{ alpha|upper|trim|e }}{{ beta is odd }}"
                          "{% from 'lib' import phi, chi as _psi, omega %}"})
+    # one template per construct with distinct fresh names in every part, in a nested frame and at top level (fixed shapes:
+    # the order of the visit of args / defaults / iter / test / body / else pins the order of the resolve lines)
+    for j, src in enumerate(DISTINCT_PART_TEMPLATES):
+        items.append({"cfg": ["plain", "async", "auto"][j % 3], "src": src, "family": "grammar"})
+        items.append({"cfg": "plain", "src": "{% macro outer() %}" + src + "{% endmacro %}", "family": "grammar"})
     for j, src in enumerate(ADDRESS_TEMPLATES):
         items.append({"cfg": ["plain", "auto", "async"][j % 3], "src": src, "family": "address"})
     # every registered filter / test on constant operands (folded at compile time): exhaustive over the registry, both tiers
@@ -453,11 +458,11 @@ def classify(it, a, b, alt_equal):
 
 def run_experiment(ctx, res, cov, boost):
     rng = ctx.rng("seeds")
-    nseeds = ctx.pick(4, 16)
-    ntempl = ctx.pick(120, 900) * boost
+    nseeds = ctx.pick(8, 16)
+    ntempl = ctx.pick(100, 900) * boost
     seeds = [0] + sorted(rng.sample(range(1, 2 ** 32 - 1), nseeds - 1))
     items, hits = gen_items(ctx, ntempl)
-    results = compile_batches(items, seeds)
+    results = compile_batches(items, seeds, parallel=8)
     base = results[seeds[0]]
     differing, errors, explained = 0, 0, {}
 
@@ -479,7 +484,9 @@ def run_experiment(ctx, res, cov, boost):
             res.violate(f"C30:hash-seed-difference:{it['cfg']}" if replay["seeds"][0] != replay["seeds"][1]
                         else f"C30:same-process-difference:{it['cfg']}", what, replay)
 
-    for i, it in enumerate(items):
+    # shortest templates first: a key is reported once, with the smallest template that shows it
+    for i in sorted(range(len(items)), key=lambda k: len(items[k]["src"])):
+        it = items[i]
         if base[i]["src"].startswith("ERR:"):
             errors += 1
         alts = {results[s][i]["alt"] for s in seeds}
